@@ -110,6 +110,8 @@ impl StateEntry {
             .duration_since(UNIX_EPOCH)
             .unwrap()
             .as_millis() as u64;
+        #[cfg(feature = "verif-hooks")]
+        let now = crate::verif_hooks::clock_ms().unwrap_or(now);
 
         Self {
             value,
@@ -125,6 +127,8 @@ impl StateEntry {
                 .duration_since(UNIX_EPOCH)
                 .unwrap()
                 .as_millis() as u64;
+            #[cfg(feature = "verif-hooks")]
+            let now = crate::verif_hooks::clock_ms().unwrap_or(now);
 
             let ttl_ms = ttl.as_millis() as u64;
             now > self.created_at + ttl_ms
@@ -139,6 +143,10 @@ impl StateEntry {
             .duration_since(UNIX_EPOCH)
             .unwrap()
             .as_millis() as u64;
+        #[cfg(feature = "verif-hooks")]
+        if let Some(ms) = crate::verif_hooks::clock_ms() {
+            self.updated_at = ms;
+        }
     }
 }
 
@@ -488,6 +496,11 @@ impl StateStore {
                 .unwrap()
                 .as_millis()
         );
+        #[cfg(feature = "verif-hooks")]
+        let checkpoint_id = match crate::verif_hooks::clock_ms() {
+            Some(ms) => format!("checkpoint_{}", ms),
+            None => checkpoint_id,
+        };
 
         let state = self.state.read().unwrap();
         let snapshot: HashMap<String, Value> = state
